@@ -157,6 +157,16 @@ func deflate(b []byte, level int) []byte {
 	return out
 }
 
+// deflateFinal compresses b as one stream that ends with a BFINAL block, the alternative that
+// RFC 7692 section 7.2.3.4 allows a sender (followed by the 0x00 octet it prescribes).
+func deflateFinal(b []byte, level int) []byte {
+	var buf bytes.Buffer
+	w, _ := flate.NewWriter(&buf, level)
+	w.Write(b)
+	w.Close()
+	return append(buf.Bytes(), 0x00)
+}
+
 // verdict of the reference validator.
 type verdict struct {
 	Deliver   []Msg // messages that must be delivered, in order
